@@ -5,7 +5,7 @@ import LyModel.Text.JsonLemmas
 
 `xml_text_roundtrip`: for EVERY string the lexers can have produced (`YangText`), in element content and in
 attribute values, libyang's XML lexer applied to what libyang's XML printer wrote returns the string, the
-`ws_only` flag, and stops exactly at the terminator.  The printer is the function read off the source by the
+`ws_only` flag (set iff every byte is white space that was printed literally), and stops exactly at the terminator.  The printer is the function read off the source by the
 translator (`Generated.xmlEscExceptions`); `esc_eq_spec` is the obligation that breaks when the switch changes.
 -/
 namespace LyModel.Props.C01
@@ -15,19 +15,19 @@ open LyModel LyModel.Utf8 LyModel.XmlText
     `hrest`: what follows the terminator is not a CDATA opener (the printer continues with `</name>`). -/
 theorem xml_text_roundtrip (attr : Bool) (endc : UInt8) (hend : EndOk attr endc) (s rest : Bytes)
     (hs : YangText s) (hrest : stripPrefix sCdata (endc :: rest) = none) :
-    XmlText.parse endc (dumpText attr s ++ endc :: rest) = .ok (s, s.all isXmlWs, endc :: rest) := by
+    XmlText.parse endc (dumpText attr s ++ endc :: rest) = .ok (s, s.all (wsLit attr), endc :: rest) := by
   have := parseValue_dump attr endc hend rest hrest hs ((dumpText attr s ++ endc :: rest).length + 1) true
     (by simp [List.length_append])
   simpa [XmlText.parse] using this
 
 /-- element content followed by an end tag -/
 theorem xml_content_roundtrip (s rest : Bytes) (hs : YangText s) :
-    XmlText.parse 60 (dumpText false s ++ 60 :: 47 :: rest) = .ok (s, s.all isXmlWs, 60 :: 47 :: rest) :=
+    XmlText.parse 60 (dumpText false s ++ 60 :: 47 :: rest) = .ok (s, s.all (wsLit false), 60 :: 47 :: rest) :=
   xml_text_roundtrip false 60 (Or.inl rfl) s (47 :: rest) hs (by simp [sCdata, stripPrefix])
 
 /-- attribute value followed by the closing quote -/
 theorem xml_attr_roundtrip (s rest : Bytes) (hs : YangText s) :
-    XmlText.parse 34 (dumpText true s ++ 34 :: rest) = .ok (s, s.all isXmlWs, 34 :: rest) :=
+    XmlText.parse 34 (dumpText true s ++ 34 :: rest) = .ok (s, s.all (wsLit true), 34 :: rest) :=
   xml_text_roundtrip true 34 (Or.inr ⟨rfl, rfl⟩) s rest hs (by simp [sCdata, stripPrefix])
 
 /-- JSON: `lyjson_string`, started after the opening quote of what `json_print_string` wrote, returns the string and
